@@ -2,6 +2,7 @@ package c17
 
 import (
 	"encoding/json"
+	"errors"
 	"fmt"
 	"math/rand"
 	"os"
@@ -12,7 +13,12 @@ import (
 	"sync"
 	"sync/atomic"
 	"testing"
+	"testing/synctest"
 	"time"
+
+	"github.com/DistCompiler/pgo/distsys"
+	"github.com/DistCompiler/pgo/distsys/resources"
+	"github.com/DistCompiler/pgo/distsys/tla"
 
 	"verif/mc/bubble"
 	"verif/mc/explore"
@@ -166,6 +172,12 @@ func execute(t *testing.T, cfg Config, c bubble.Chooser, strict bool) execOut {
 			return false
 		}
 		enabled := func(th *bubble.Thread) bool {
+			if w.nestedEnd != nil && w.nestedEnd.State() == bubble.Parked && th != w.nestedEnd {
+				// the nested archetype has reached its end label: it ends now, before anything else moves.  (Letting
+				// the outer archetype use the nested resource while the nested archetype lingers here leads into the
+				// crash of the nested-abort probe, which would kill the worker process.)
+				return false
+			}
 			for i, st := range w.stop {
 				if th == st && i > 0 && w.stop[i-1].State() == bubble.Parked && w.stop[i-1].Label() == "start" {
 					return false // Stop callers are interchangeable: they start in index order
@@ -347,6 +359,7 @@ func outcomeOf(w *world, evs []bubble.Event) string {
 type replayCase struct {
 	Cfg     Config `json:"config"`
 	Choices []int  `json:"choices"`
+	Probe   string `json:"probe,omitempty"` // crash probe (child process) instead of a schedule
 }
 
 type suspectOut struct {
@@ -483,6 +496,14 @@ func TestCheck(t *testing.T) {
 			if err := json.Unmarshal(env.Replay, &r); err != nil {
 				t.Fatal(err)
 			}
+			if r.Probe != "" {
+				f, rep := crashProbe()
+				res.Coverage = map[string]any{"evaluations": 1, "distinct_nontrivial": 0, "rule": "replay of the crash probe in a child process", "samples": []any{rep}}
+				if f != nil {
+					res.Violations = append(res.Violations, hres.Viol{Key: f.Key, What: f.What, Replay: r})
+				}
+				return res
+			}
 			v, outc, _ := explore.ReplayOnce(body(t, r.Cfg, true, nil), r.Choices, 1<<20, nil)
 			res.Coverage = map[string]any{"evaluations": 1, "distinct_nontrivial": 0, "rule": "replay (strict: a deadlock is only reported after 60 s without progress and a goroutine dump with only channel/mutex waits)", "samples": []any{outc}}
 			if v != nil {
@@ -614,6 +635,11 @@ func TestCheck(t *testing.T) {
 			}()
 		}
 		wg.Wait()
+		probeFail, probeReport := crashProbe()
+		if probeFail != nil {
+			viol[probeFail.Key] = hres.Viol{Key: probeFail.Key, What: probeFail.What, Replay: replayCase{Probe: crashProbeName}}
+		}
+		evals++
 		keys := make([]string, 0, len(viol))
 		for k := range viol {
 			keys = append(keys, k)
@@ -644,6 +670,7 @@ func TestCheck(t *testing.T) {
 			"violation_keys_seen":        kinds,
 			"suspected_mutex_deadlocks":  suspected,
 			"strict_confirmations":       confirm,
+			"crash_probe":                probeReport,
 			"leaked_bubbles":             leakedB + bubble.Leaked(),
 			"shard_workers":              env.Workers,
 			"bounds":                     "endings {Done, Stop only, assertion, Error label, resource error in body, resource error in PreCommit} x resource mixes {2 plain, plain with failing Close, IncMap with realised elements, HashMap with 3 configured elements, nested-archetype resource with an instrumented inner resource} plus the nested mix with a nested archetype that ends on its own (Done / error / assertion, after serving 0 or 1 outer sections; outer section 2 using or not using the nested resource; outer ending Done or Stop-only; 0-2 Stop callers) x 0-3 (thorough 0-4) Stop callers started at every scheduling point (before Run, at each section start, inside each Close, after Run, around a second Run) x with/without a second Run call, plus Stop callers on a context whose Run is never called; every interleaving, no preemption bound",
@@ -653,6 +680,7 @@ func TestCheck(t *testing.T) {
 		}
 		if env.Thorough() {
 			cov["race_pass"] = racePass(env)
+			cov["commit_ack_race_stress"] = stressAck(20000)
 		}
 		res.Coverage = cov
 		return res
@@ -749,6 +777,179 @@ func racePass(env hres.Env) map[string]any {
 	return out
 }
 
+// ---------------------------------------------------------------------------------------------
+// crash probe: a panic in a goroutine of the code under test cannot be caught inside a bubble, so the one
+// scenario of this class that ends that way is a fixed script run in a child process.
+//
+// nested-ends-while-outer-aborts: the nested archetype reaches Done before serving anything and its cleanup
+// (Close of its inner resource) takes a while; the outer archetype's first request to the nested resource
+// therefore times out (100 ms, virtual) and the section aborts; while MPCalContext.abort waits for the nested
+// resource's Abort, the nested cleanup finishes.  Expected: the aborted section is retried and Run returns
+// resources.ErrNestedArchetypeStopped.
+
+type slowClose struct {
+	distsys.ArchetypeResource
+	release chan struct{}
+	closes  atomic.Int32
+}
+
+func (s *slowClose) Close() error {
+	s.closes.Add(1)
+	<-s.release
+	return s.ArchetypeResource.Close()
+}
+
+const crashProbeName = "nested-ends-while-outer-aborts"
+
+func TestCrashProbe(t *testing.T) {
+	if os.Getenv("C17_CRASH_PROBE") == "" {
+		t.Skip("child of TestCheck")
+	}
+	synctest.Test(t, func(t *testing.T) {
+		store := &slowClose{ArchetypeResource: distsys.NewLocalArchetypeResource(num(4)), release: make(chan struct{})}
+		nested := resources.NewNested(func(sendCh chan<- tla.Value, receiveCh <-chan tla.Value) []*distsys.MPCalContext {
+			return []*distsys.MPCalContext{distsys.NewMPCalContext(tla.MakeString("reg"), registerArchetype("done", 0),
+				distsys.EnsureArchetypeRefParam("in", resources.NewInputChan(receiveCh)),
+				distsys.EnsureArchetypeRefParam("out", resources.NewOutputChan(sendCh)),
+				distsys.EnsureArchetypeRefParam("store", store))}
+		})
+		s0 := distsys.MPCalCriticalSection{Name: "L.s0", Body: func(iface distsys.ArchetypeInterface) error {
+			r, err := iface.RequireArchetypeResourceRef("L.r")
+			if err != nil {
+				return err
+			}
+			if err := iface.Write(r, nil, num(1)); err != nil {
+				return err
+			}
+			return iface.Goto("L.Done")
+		}}
+		done := distsys.MPCalCriticalSection{Name: "L.Done", Body: func(distsys.ArchetypeInterface) error { return distsys.ErrDone }}
+		outer := distsys.NewMPCalContext(tla.MakeString("self"), distsys.MPCalArchetype{Name: "L", Label: "L.s0", RequiredRefParams: []string{"L.r"},
+			JumpTable: distsys.MakeMPCalJumpTable(s0, done), ProcTable: distsys.MakeMPCalProcTable(), PreAmble: func(distsys.ArchetypeInterface) {}},
+			distsys.EnsureArchetypeRefParam("r", nested))
+		res := make(chan error, 1)
+		go func() { res <- outer.Run() }()
+		time.Sleep(150 * time.Millisecond) // virtual: the request to the nested resource has timed out, the section is aborting
+		synctest.Wait()
+		fmt.Printf("PROBE-STATE nested cleanup entered=%d\n", store.closes.Load())
+		close(store.release) // the nested cleanup finishes now
+		time.Sleep(2 * time.Second)
+		synctest.Wait()
+		select {
+		case err := <-res:
+			fmt.Printf("PROBE-RESULT stopped=%v err=%v\n", errors.Is(err, resources.ErrNestedArchetypeStopped), err)
+		default:
+			fmt.Println("PROBE-RESULT Run has not returned after 2 virtual seconds")
+			go outer.Stop()
+		}
+	})
+}
+
+// crashProbe runs TestCrashProbe in a child process and judges its output.
+func crashProbe() (fail *Failure, report map[string]any) {
+	self := os.Getenv("VERIF_SELF")
+	if self == "" {
+		self = os.Args[0]
+	}
+	cmd := exec.Command(self, "-test.run", "^TestCrashProbe$", "-test.v", "-test.count", "1", "-test.timeout", "120s")
+	cmd.Env = append(os.Environ(), "C17_CRASH_PROBE="+crashProbeName, "VERIF_OUT=", "VERIF_REPLAY=")
+	b, err := cmd.CombinedOutput()
+	txt := string(b)
+	report = map[string]any{"probe": crashProbeName, "exit": fmt.Sprint(err)}
+	var line string
+	for _, l := range strings.Split(txt, "\n") {
+		if strings.HasPrefix(l, "PROBE-RESULT") {
+			line = l
+		}
+	}
+	report["result"] = line
+	switch {
+	case strings.Contains(line, "stopped=true"):
+		return nil, report
+	case strings.Contains(txt, "panic: "):
+		i := strings.Index(txt, "panic: ")
+		e := i + 700
+		if e > len(txt) {
+			e = len(txt)
+		}
+		report["panic"] = txt[i:e]
+		first := strings.SplitN(txt[i:], "\n", 2)[0]
+		return &Failure{"crash/" + crashProbeName, "the process dies instead of Run reporting the resource error: the nested archetype reached Done (slow cleanup) before serving anything, the outer archetype's request timed out and its section was aborting when the nested cleanup finished: " + first}, report
+	case line != "":
+		return &Failure{"run-result/" + crashProbeName, "the outer Run did not report ErrNestedArchetypeStopped: " + line}, report
+	}
+	report["output_tail"] = txt[max(0, len(txt)-600):]
+	return nil, report // the probe itself did not work: not a verdict
+}
+
+// TestStressAck (child process, informational, never a verdict): the nested archetype ends right after it
+// acknowledged the Commit of the outer section; in nestedArchetype.performRequest the buffered acknowledgement
+// then races the close of ctxHasStopped (Go picks a ready select case at random) and the losing case panics in
+// a bare goroutine.  Free-running, real goroutines, many rounds.
+func TestStressAck(t *testing.T) {
+	if os.Getenv("C17_STRESS_ACK") == "" {
+		t.Skip("child of TestCheck")
+	}
+	rounds := 2000
+	fmt.Sscan(os.Getenv("C17_STRESS_ACK"), &rounds)
+	bad := 0
+	for i := 0; i < rounds; i++ {
+		nested := resources.NewNested(func(sendCh chan<- tla.Value, receiveCh <-chan tla.Value) []*distsys.MPCalContext {
+			return []*distsys.MPCalContext{distsys.NewMPCalContext(tla.MakeString("reg"), registerArchetype("done", 1),
+				distsys.EnsureArchetypeRefParam("in", resources.NewInputChan(receiveCh)),
+				distsys.EnsureArchetypeRefParam("out", resources.NewOutputChan(sendCh)),
+				distsys.EnsureArchetypeRefParam("store", distsys.NewLocalArchetypeResource(num(4))))}
+		})
+		s0 := distsys.MPCalCriticalSection{Name: "L.s0", Body: func(iface distsys.ArchetypeInterface) error {
+			r, err := iface.RequireArchetypeResourceRef("L.r")
+			if err != nil {
+				return err
+			}
+			if err := iface.Write(r, nil, num(1)); err != nil {
+				return err
+			}
+			return iface.Goto("L.Done")
+		}}
+		done := distsys.MPCalCriticalSection{Name: "L.Done", Body: func(distsys.ArchetypeInterface) error { return distsys.ErrDone }}
+		outer := distsys.NewMPCalContext(tla.MakeString("self"), distsys.MPCalArchetype{Name: "L", Label: "L.s0", RequiredRefParams: []string{"L.r"},
+			JumpTable: distsys.MakeMPCalJumpTable(s0, done), ProcTable: distsys.MakeMPCalProcTable(), PreAmble: func(distsys.ArchetypeInterface) {}},
+			distsys.EnsureArchetypeRefParam("r", nested))
+		if err := outer.Run(); err != nil {
+			bad++
+		}
+		if i%100 == 0 {
+			fmt.Printf("STRESS-PROGRESS %d\n", i)
+		}
+	}
+	fmt.Printf("STRESS-DONE rounds=%d runs_with_error=%d\n", rounds, bad)
+}
+
+func stressAck(rounds int) map[string]any {
+	self := os.Getenv("VERIF_SELF")
+	if self == "" {
+		self = os.Args[0]
+	}
+	cmd := exec.Command(self, "-test.run", "^TestStressAck$", "-test.v", "-test.count", "1", "-test.timeout", "300s")
+	cmd.Env = append(os.Environ(), fmt.Sprintf("C17_STRESS_ACK=%d", rounds), "VERIF_OUT=", "VERIF_REPLAY=")
+	b, err := cmd.CombinedOutput()
+	txt := string(b)
+	out := map[string]any{"rounds": rounds, "exit": fmt.Sprint(err), "note": "informational (sampling), never a verdict"}
+	last := ""
+	for _, l := range strings.Split(txt, "\n") {
+		if strings.HasPrefix(l, "STRESS-") {
+			last = l
+		}
+	}
+	out["last"] = last
+	if i := strings.Index(txt, "panic: "); i >= 0 {
+		out["crashed"] = true
+		out["panic"] = txt[i:min(len(txt), i+500)]
+	} else {
+		out["crashed"] = false
+	}
+	return out
+}
+
 // TestRaceBodies runs the same contexts free-running in real time (no scheduler, no parking):
 // Run, 0-3 Stop callers at random small delays, an optional second Run; meant for `go test -race`.
 func TestRaceBodies(t *testing.T) {
@@ -763,7 +964,9 @@ func TestRaceBodies(t *testing.T) {
 	deadline := time.Now().Add(time.Duration(budget) * time.Second)
 	for r := 0; r < rounds && time.Now().Before(deadline); r++ {
 		for _, cfg := range cfgs {
-			if cfg.NoRun || (r%4 != 0 && cfg.Stops < 2) || (cfg.SecondRun && cfg.End == "loop") {
+			// (self-ending nested archetypes are left out here: with real 100 ms timeouts a starved machine reaches the
+			// crash window of the nested-abort probe and the panic would end the whole race pass)
+			if cfg.NoRun || cfg.Nested != "" || (r%4 != 0 && cfg.Stops < 2) || (cfg.SecondRun && cfg.End == "loop") {
 				continue
 			}
 			w := build(cfg, nil)
